@@ -326,7 +326,7 @@ def main():
     sd = seed()
     rep = Report(prop)
     proof_ok, pinfo = coqcheck.proof_status(prop)
-    ntr = 6000 if thorough else 600
+    ntr = 90000 if thorough else 600
     results = []
     if pinfo.get('build_ok'):
         nproc = min(16, os.cpu_count() or 4)
